@@ -308,6 +308,36 @@ impl Out {
         self.emit("npm", &[tree.to_string(), hex(t), enc_version(v)], ans);
     }
 
+    /// C02: `a`, `b`, `a || b`, `a b`, `b a` on one version; the printed forms of `a` and `b` let the
+    /// oracle compute bounds membership independently
+    pub fn c02(&mut self, a: &str, b: &str, v: &Version) {
+        let sat = |t: &str| -> String {
+            match quiet(|| Range::parse(t).map(|r| r.satisfies(v))) {
+                Ok(Ok(x)) => b01(x).to_string(),
+                Ok(Err(_)) => "e".into(),
+                Err(()) => "panic".into(),
+            }
+        };
+        let printed = |t: &str| -> String {
+            match Range::parse(t) {
+                Ok(r) => hex(&r.to_string()),
+                Err(_) => "e".into(),
+            }
+        };
+        let ans = format!(
+            "a={} b={} or={} ro={} and={} dna={} pa={} pb={}",
+            sat(a),
+            sat(b),
+            sat(&format!("{} || {}", a, b)),
+            sat(&format!("{} || {}", b, a)),
+            sat(&format!("{} {}", a, b)),
+            sat(&format!("{} {}", b, a)),
+            printed(a),
+            printed(b)
+        );
+        self.emit("c02", &[hex(a), hex(b), enc_version(v)], ans);
+    }
+
     /// `sat <text> <printed form of the parsed range> <version>`
     pub fn sat(&mut self, t: &str, r: &Range, v: &Version) {
         let ans = match quiet(|| (r.satisfies(v), v.satisfies(r))) {
